@@ -67,9 +67,9 @@ func (v sval) String() string {
 type s9frame struct {
 	fn      *ssa.Function
 	params  map[*ssa.Parameter]sval
-	cells   map[ssa.Value]sval      // initial content of captured cells (FreeVar) and local cells (Alloc)
-	resolve map[ssa.Value]string    // parameter / free variable -> name of the value it stands for in the outermost frame
-	headEnv map[ssa.Value]sval      // bindings of phis at the start block
+	cells   map[ssa.Value]sval   // initial content of captured cells (FreeVar) and local cells (Alloc)
+	resolve map[ssa.Value]string // parameter / free variable -> name of the value it stands for in the outermost frame
+	headEnv map[ssa.Value]sval   // bindings of phis at the start block
 }
 
 type s9state struct {
